@@ -474,17 +474,18 @@ impl ForwardedStreamSink {
         let to_send =
             std::cmp::min(data.len() as u64, state.remaining_chunk_size.unwrap()) as usize;
         let unsent = state.sink.write(data.slice(..to_send))?;
+        let sent = to_send - unsent.len();
 
         let remaining = state
             .remaining_chunk_size
             .take()
             .unwrap()
-            .saturating_sub(to_send as u64);
+            .saturating_sub(sent as u64);
         log_id!(
             trace,
             self.id,
             "Encoded chunk: {} bytes (remaining {} bytes)",
-            to_send,
+            sent,
             remaining
         );
         if remaining > 0 {
@@ -497,9 +498,11 @@ impl ForwardedStreamSink {
                 sink: state.sink,
             });
         }
-        self.fake_unsent = !data.is_empty();
+        let tail = data.split_off(sent);
+        // bytes the underlying sink refused are really unsent: the caller must wait for it
+        self.fake_unsent = unsent.is_empty() && !tail.is_empty();
 
-        Ok(data.split_off(to_send - unsent.len()))
+        Ok(tail)
     }
 
     fn on_encoded_chunk_suffix(&mut self, mut data: Bytes) -> io::Result<Bytes> {
